@@ -20,7 +20,7 @@ use crate::{
     },
     socket::{Socket, UdpSocket},
     utils::{maybe_gather, retry_on_timeout, u8_lower_upper},
-    GDErrorKind::{BadGame, Decompress, UnknownEnumCast},
+    GDErrorKind::{BadGame, Decompress, PacketBad, UnknownEnumCast},
     GDResult,
 };
 
@@ -149,18 +149,23 @@ impl ValveProtocol {
         buffer.move_cursor(-1)?;
         if header == 0xFE {
             // the packet is split
-            let mut main_packet = SplitPacket::new(engine, protocol, &mut buffer)?;
-            let mut chunk_packets = Vec::with_capacity(main_packet.total.saturating_sub(1) as usize);
+            let first_packet = SplitPacket::new(engine, protocol, &mut buffer)?;
+            let total = first_packet.total;
+            let mut chunk_packets = Vec::with_capacity(total.max(1) as usize);
+            chunk_packets.push(first_packet);
 
-            for _ in 1 .. main_packet.total {
+            for _ in 1 .. total {
                 let new_data = self.socket.receive(Some(buffer_size))?;
                 buffer = Buffer::<LittleEndian>::new(&new_data);
                 let chunk_packet = SplitPacket::new(engine, protocol, &mut buffer)?;
                 chunk_packets.push(chunk_packet);
             }
 
+            // The packets can arrive in any order (including the first one)
             chunk_packets.sort_by(|a, b| a.number.cmp(&b.number));
 
+            let mut chunk_packets = chunk_packets.into_iter();
+            let mut main_packet = chunk_packets.next().ok_or(PacketBad)?;
             for chunk_packet in chunk_packets {
                 main_packet.payload.extend(chunk_packet.payload);
             }
